@@ -84,6 +84,25 @@ fn main() {
     println(c(0));
 }
 `}},
+	// names shared between function literals and declared functions, at different positions of
+	// their frames: which function the compiler handles first must not matter
+	{Name: "literals-and-functions-sharing-variable-names", Tree: true, Mods: map[string]string{"main": `fn scale(a: int, x: int) -> int {
+    let y = a * 10;
+    y + x
+}
+fn shift(p: int, q: int, y: int) -> int {
+    let x = p - q;
+    x + y
+}
+fn main() {
+    let twice = fn(x: int) -> int { let a = x; a + x };
+    let pick = fn(y: int, x: int, a: int) -> int { let q = y * 100; q + x * 10 + a };
+    println(scale(1, 2), shift(9, 4, 1), twice(4), pick(1, 2, 3));
+    let y = 7;
+    let nested = fn(a: int) -> int { let inner = fn(y: int, a: int) -> int { y - a }; inner(a, 1) + a };
+    println(nested(5), y, scale(y, 1));
+}
+`}},
 	{Name: "uncaught-throw-inside-a-function-literal", Tree: true, Mods: map[string]string{"main": `fn main() {
     let first = fn() -> int { 1 };
     let failing = fn(msg: str) -> int { throw(msg); 0 };
